@@ -26,7 +26,15 @@ func indexType(rt reflect.Type) (im map[string]reflect.StructField) {
 				continue
 			}
 			if f.Anonymous {
-				fim := indexType(f.Type)
+				ft := f.Type
+				if ft.Kind() == reflect.Ptr {
+					ft = ft.Elem()
+				}
+				if ft.Kind() != reflect.Struct {
+					im[f.Name] = f
+					continue
+				}
+				fim := indexType(ft)
 				// prepend index and add to im
 				for k := range fim {
 					ff := fim[k]
